@@ -86,6 +86,50 @@ def run(tier, seed, replay=None):
             for why, what in monitor_hits[before:]:
                 rep.fail("illtyped_intermediate:" + ops[0], dict(family=fam, expr=repr(e)),
                          why + " in " + what)
+        # ---- foliate: yielded steps and slices, model vs code, plus the oracle
+        from common import ser_diagram
+        for k in range(80 if tier == "quick" else 1500):
+            fam = "rigid" if k % 4 == 3 else "monoidal"
+            r = random.Random(rng.getrandbits(64))
+            eg = ExprGen(r, rigid=(fam == "rigid"))
+            e = eg.g.diagram(depth=r.choice([0, 1, 2, 3, 4, 5, 6, 8]))[0]
+            d = fams[fam].run(e)
+            line = "foliate " + tok_expr(e)
+            model = drv.ask(line)
+            before = len(monitor_hits)
+            try:
+                from discopy import monoidal
+                out = list(monoidal.Diagram.foliate(d, yield_slices=True))
+                steps, slices = out[:-1], out[-1]
+                real = "ok %s %s" % (
+                    " ".join([str(len(steps))] + [ser_diagram(x) for x in steps]),
+                    " ".join([str(len(slices))] + [ser_diagram(x) for x in slices]))
+            except Exception as exc:
+                steps, slices, real = None, None, "err " + err_class(exc)
+            if real != model:
+                rep.disagree("foliate", dict(family=fam, expr=repr(e)), real[:400], model[:400])
+            rep.case(line, steps is not None and len(steps) >= 1)
+            rep.count("foliate_steps:%s" % (len(steps) if steps is not None and len(steps) < 6 else "6+"))
+            if steps is None:
+                rep.fail("foliate_raises:" + real.split(" ")[1], dict(family=fam, expr=repr(e)), real)
+                continue
+            for x in steps + slices:
+                why = wf_failure(x)
+                if why:
+                    rep.fail("illtyped_result:foliate", dict(family=fam, expr=repr(e)), why)
+            last = steps[-1] if steps else d
+            try:
+                glued = fams[fam].m.Id(d.dom)
+                for sl in slices:
+                    glued = glued >> sl
+                if glued != last:
+                    rep.fail("foliate_slices_do_not_glue", dict(family=fam, expr=repr(e)),
+                             "composite of the slices differs from the last yielded diagram")
+            except Exception as exc:
+                rep.fail("foliate_slices_do_not_glue", dict(family=fam, expr=repr(e)), repr(exc)[:200])
+            for why, what in monitor_hits[before:]:
+                rep.fail("illtyped_intermediate:foliate", dict(family=fam, expr=repr(e)), why + " in " + what)
+
         # ---- API sweep (oracle only): operations not in the modelled op language
         sweep = 0
         for k in range(60 if tier == "quick" else 600):
